@@ -10,17 +10,10 @@ from sa.poly import RF, fn_atom
 from sa.selftest import Edit, Variant
 from sa.sym import ClassRef, Cond, Interp, Rec, explore, method_of, to_rf, closure_of
 
-EXPLANATION = (
-    "Geometric exactness is Skia's (not decided). Decided: (bounding boxes) svg_pathops.bounding_box reads the tight `.bounds` of the path "
-    "built from the normalised command sequence, SVGShape.bounding_box converts (x1,y1,x2,y2) to (x, y, x2-x1, y2-y1) (symbolic), "
-    "SVG.bounding_box folds Rect.union over all shapes, and no class of the shape hierarchy memoises geometry-derived values on the instance "
-    "(every bounding box is recomputed from the current data); (Rect algebra, symbolic with opaque min/max) intersection = [max of starts, "
-    "min of ends] per axis and None exactly when empty on an axis, union = [min of starts, max of ends]; (clip_to_viewbox) a shape is deleted "
-    "only when its box does not meet the viewBox, clipping is skipped only when the box lies inside, otherwise the shape is intersected with "
-    "the rectangle of the intersection (its x, y, w, h - not a rectangle at the origin) under (fill_rule, clip_rule) and marked nonzero, "
-    "emptied groups are pruned, and the CLI applies it only under its flag after the conversion."
-)
-ASSUMPTIONS = ["Skia's .bounds is the tight box of the curve geometry and its intersection is exact"]
+from sa.texts import T as _T
+
+EXPLANATION = _T["C19"]["explanation"] + " Not decided: " + _T["C19"]["not_decided"] + "."
+ASSUMPTIONS = _T["C19"]["assumptions"]
 P = "C19"
 S = RF.sym
 
